@@ -5,6 +5,7 @@ import (
 	"math/rand"
 	"os"
 	"runtime"
+	"sort"
 	"sync"
 	"sync/atomic"
 	"time"
@@ -506,6 +507,142 @@ func RunKvsGates(seed int, t *Trace, seg int) int {
 		}
 		t.Emit(kvDump(kv, keys, "final"))
 		kv.Delete()
+	}
+	return seg
+}
+
+// RunSimpleGates: directed schedules for the simple server. A writer's update is held up at the disk (every disk write
+// blocks for at most three seconds) while a second client reads the same file; then the disk is cut off as it is and
+// recovered. A reply that the reader got before the cut must be explained together with the recovered state: the
+// server may not let a reader see what a crash can still take back.
+func RunSimpleGates(seed int, t *Trace, seg int) int {
+	type exp struct{ writer, reader string }
+	var exps []exp
+	for _, w := range []string{"WRITEGROW", "WRITEOVER", "TRUNC", "EXTEND"} {
+		for _, r := range []string{"READ", "GETATTR"} {
+			exps = append(exps, exp{w, r})
+		}
+	}
+	for k, e := range exps {
+		d := vdisk.New(2000)
+		var srv *simple.Nfs
+		func() {
+			defer func() { recover() }()
+			srv = simple.MakeNfs(d)
+		}()
+		if srv == nil {
+			panic("simple.MakeNfs failed")
+		}
+		waitQuiet(d)
+		t.Emit(Reset{Ev: "reset", Seg: seg, Driver: "simplegate", Seed: seed*1000 + k, DiskSz: 2000, Root: simpleFh(1), KeepHist: true})
+		seg++
+		type rec struct {
+			seq int64
+			ev  interface{}
+		}
+		var mu sync.Mutex
+		var recs []rec
+		var seq int64
+		note := func(ev interface{}) {
+			mu.Lock()
+			recs = append(recs, rec{atomic.AddInt64(&seq, 1), ev})
+			mu.Unlock()
+		}
+		mk := func(proc string, i int) *Call {
+			c := NewCall(proc)
+			c.Fh, c.Ino, c.I = simpleFh(2), 2, i
+			return c
+		}
+		// run c: its "inv" line carries the reply, so the line is completed when the call returns but keeps its place
+		run := func(cl int, c *Call, done chan struct{}) {
+			c.Cl = cl
+			mu.Lock()
+			pos := len(recs)
+			recs = append(recs, rec{atomic.AddInt64(&seq, 1), nil})
+			mu.Unlock()
+			c2 := execWatch(srv, c)
+			mu.Lock()
+			recs[pos].ev = SHEv{Ev: "inv", Cl: cl, Call: c2}
+			mu.Unlock()
+			note(SHEv{Ev: "ret", Cl: cl, Call: &Call{I: c.I, Data: []Run{}, RData: []Run{}, Ents: []Ent{}, Leaked: []int{}}})
+			if done != nil {
+				close(done)
+			}
+		}
+		w0 := mk("WRITE", 0)
+		w0.Off, w0.Cnt, w0.DLen, w0.Data, w0.Stable = 0, 100, 100, []Run{{100, 3}}, 2
+		run(0, w0, nil)
+		waitQuiet(d)
+		armed := int32(1)
+		inWin := make(chan struct{}, 1)
+		resume := make(chan struct{})
+		d.Yield = func(kind string, a uint64) {
+			if kind == "write" && atomic.LoadInt32(&armed) == 1 {
+				select {
+				case inWin <- struct{}{}:
+				default:
+				}
+				select {
+				case <-resume:
+				case <-timeAfter(3):
+				}
+			}
+		}
+		w := mk("WRITE", 1)
+		switch e.writer {
+		case "WRITEGROW":
+			w.Off, w.Cnt, w.DLen, w.Data, w.Stable = 50, 200, 200, []Run{{200, 7}}, 2
+		case "WRITEOVER":
+			w.Off, w.Cnt, w.DLen, w.Data, w.Stable = 0, 100, 100, []Run{{100, 8}}, 2
+		case "TRUNC":
+			w = mk("SETATTR", 1)
+			w.SetSize, w.Size = true, 10
+		default:
+			w = mk("SETATTR", 1)
+			w.SetSize, w.Size = true, 1000
+		}
+		wdone := make(chan struct{})
+		go run(1, w, wdone)
+		select {
+		case <-inWin:
+		case <-wdone:
+		case <-timeAfter(2):
+		}
+		r := mk(e.reader, 2)
+		r.Off, r.Cnt = 0, 4096
+		rdone := make(chan struct{})
+		go run(2, r, rdone)
+		select {
+		case <-rdone:
+		case <-time.After(1200 * time.Millisecond):
+		}
+		// the disk as it is now: what was written before the hold-up, nothing of what is held up
+		img := d.Clone()
+		var rcv *simple.Nfs
+		func() {
+			defer func() { recover() }()
+			rcv = simple.Recover(img)
+		}()
+		if rcv == nil {
+			note(map[string]interface{}{"ev": "scrashprobe", "ok": false, "dump": &SDump{Ev: "sdump", Files: []SFile{}}})
+		} else {
+			note(map[string]interface{}{"ev": "scrashprobe", "ok": true, "dump": simpleDump(rcv, "recovered")})
+		}
+		atomic.StoreInt32(&armed, 0)
+		close(resume)
+		<-wdone
+		<-rdone
+		d.Yield = nil
+		waitQuiet(d)
+		mu.Lock()
+		sort.Slice(recs, func(i, j int) bool { return recs[i].seq < recs[j].seq })
+		for _, x := range recs {
+			if x.ev != nil {
+				t.Emit(x.ev)
+			}
+		}
+		mu.Unlock()
+		t.Emit(simpleDump(srv, "final"))
 	}
 	return seg
 }
